@@ -280,8 +280,9 @@ def check_C04():
 def rows_ser(d, rng):
     q = tier() == "quick"
     vals = _vals(d, rng, 20 if q else 200, cap=60 if q else 600)
-    rows = [{"d": d["id"], "ep": "ser", "ins": [{"fmt": f, "v": v} for f in ("json", "ron", "msgpack", "msgpack_named") for v in vals]}]
-    rows.append({"d": d["id"], "ep": "canon_fmt", "ins": [{"fmt": f, "v": v} for f in ("json", "ron", "msgpack", "msgpack_named") for v in vals]})
+    fmts = ("json", "ron", "ron_named", "msgpack", "msgpack_named")
+    rows = [{"d": d["id"], "ep": "ser", "ins": [{"fmt": f, "v": v} for f in fmts for v in vals]}]
+    rows.append({"d": d["id"], "ep": "canon_fmt", "ins": [{"fmt": f, "v": v} for f in fmts for v in vals]})
     return rows
 
 
